@@ -2,7 +2,7 @@ package rules
 
 import (
 	"fmt"
-	"sort"
+	"go/token"
 	"strings"
 
 	"golang.org/x/tools/go/ssa"
@@ -33,13 +33,16 @@ type tsRule struct {
 
 type tsResult struct {
 	outs   map[uint8]bool
+	// outKinds: for each out state of a helper, whether it leaves through a return whose error result is nil (1),
+	// non-nil (2) or either (3); 3 for helpers without an error result
+	outKinds map[uint8]uint8
 	bad    string
 	badAt  ssa.Instruction
 	counts map[string]int
 }
 
 func (t *tsRule) run(anchor *ssa.Function, init uint8) *tsResult {
-	total := &tsResult{outs: map[uint8]bool{}, counts: map[string]int{}}
+	total := &tsResult{outs: map[uint8]bool{}, outKinds: map[uint8]uint8{}, counts: map[string]int{}}
 	type key struct {
 		fn    *ssa.Function
 		subst string
@@ -52,7 +55,7 @@ func (t *tsRule) run(anchor *ssa.Function, init uint8) *tsResult {
 		if s, ok := memo[k]; ok {
 			return s
 		}
-		sum := &tsResult{outs: map[uint8]bool{}}
+		sum := &tsResult{outs: map[uint8]bool{}, outKinds: map[uint8]uint8{}}
 		memo[k] = sum
 		res := t.r.Resolver(f)
 		T := func(v ssa.Value) string {
@@ -66,32 +69,57 @@ func (t *tsRule) run(anchor *ssa.Function, init uint8) *tsResult {
 		if t.edges != nil {
 			edgeEv = t.edges(&guard.Checker{P: t.r.P, Fn: f, Res: res, Subst: subst})
 		}
-		type ps struct {
-			b  *ssa.BasicBlock
-			st uint8
+		// a walk state: the rule's state plus, right after a helper call, what is known about how the helper returned
+		// (so that the caller's `if err != nil` is followed only on the matching side)
+		type wst struct {
+			st   uint8
+			call ssa.Value // the helper call whose outcome is still pending a test (nil: none)
+			kind uint8     // 1 returned nil error, 2 returned an error
 		}
-		seen := map[ps]bool{{f.Blocks[0], st}: true}
-		q := []ps{{f.Blocks[0], st}}
-		apply := func(states []uint8, ev string, at ssa.Instruction) []uint8 {
+		type ps struct {
+			b *ssa.BasicBlock
+			w wst
+		}
+		seen := map[ps]bool{{f.Blocks[0], wst{st: st}}: true}
+		q := []ps{{f.Blocks[0], wst{st: st}}}
+		apply := func(states []wst, ev string, at ssa.Instruction) []wst {
 			total.counts[ev]++
-			out := states[:0:0]
-			has := map[uint8]bool{}
+			var out []wst
+			has := map[wst]bool{}
 			for _, s := range states {
-				ns, msg := t.step(s, ev)
+				ns, msg := t.step(s.st, ev)
 				if msg != "" && sum.bad == "" {
 					sum.bad, sum.badAt = msg, at
 				}
-				if !has[ns] {
-					has[ns] = true
-					out = append(out, ns)
+				n := wst{ns, s.call, s.kind}
+				if !has[n] {
+					has[n] = true
+					out = append(out, n)
 				}
 			}
 			return out
 		}
+		errKind := func(fn *ssa.Function, b *ssa.BasicBlock) uint8 {
+			ret := b.Instrs[len(b.Instrs)-1].(*ssa.Return)
+			if len(ret.Results) == 0 {
+				return 3
+			}
+			last := ret.Results[len(ret.Results)-1]
+			if !isErrorType(last.Type()) {
+				return 3
+			}
+			if c, ok := last.(*ssa.Const); ok && c.Value == nil {
+				return 1
+			}
+			if errNonNilAt(t.r, fn, b, last, 0) {
+				return 2
+			}
+			return 3
+		}
 		for len(q) > 0 && sum.bad == "" {
 			cur := q[0]
 			q = q[1:]
-			states := []uint8{cur.st}
+			states := []wst{cur.w}
 			for _, ins := range cur.b.Instrs {
 				for _, ev := range t.events(f, ins, T) {
 					states = apply(states, ev, ins)
@@ -113,40 +141,66 @@ func (t *tsRule) run(anchor *ssa.Function, init uint8) *tsResult {
 						hs[i] = normT(T(a))
 					}
 				}
-				var next []uint8
-				has := map[uint8]bool{}
+				var next []wst
+				has := map[wst]bool{}
+				cv, _ := ins.(ssa.Value)
 				for _, s := range states {
-					hr := walk(h, hs, s, depth+1)
+					hr := walk(h, hs, s.st, depth+1)
 					if hr.bad != "" && sum.bad == "" {
 						sum.bad, sum.badAt = hr.bad, hr.badAt
 					}
 					for o := range hr.outs {
-						if !has[o] {
-							has[o] = true
-							next = append(next, o)
+						kinds := hr.outKinds[o]
+						for _, kd := range []uint8{1, 2} {
+							if kinds&kd == 0 {
+								continue
+							}
+							n := wst{o, cv, kd}
+							if kinds == 3 && hr.outKinds[o] == 3 && !hasErrorResult(h) {
+								n = wst{st: o}
+							}
+							if !has[n] {
+								has[n] = true
+								next = append(next, n)
+							}
 						}
 					}
 				}
 				if len(next) > 0 {
-					sort.Slice(next, func(i, j int) bool { return next[i] < next[j] })
 					states = next
 				}
 			}
 			if _, isRet := cur.b.Instrs[len(cur.b.Instrs)-1].(*ssa.Return); isRet {
+				ek := errKind(f, cur.b)
 				for _, s := range states {
-					sum.outs[s] = true
+					sum.outs[s.st] = true
+					sum.outKinds[s.st] |= ek
 				}
 			}
-			for _, nx := range cur.b.Succs {
+			// a branch on the pending helper's error result: follow only the matching side
+			var errCall ssa.Value
+			nonNilSucc := -1
+			if iff := cfgx.IfOf(cur.b); iff != nil && len(cur.b.Succs) == 2 {
+				errCall, nonNilSucc = errTestOf(iff.Cond)
+			}
+			for si, nx := range cur.b.Succs {
 				for _, s := range states {
+					if errCall != nil && s.call == errCall {
+						if (si == nonNilSucc) != (s.kind == 2) {
+							continue
+						}
+					}
 					ns := s
 					if ev, ok := edgeEv[cfgx.Edge{From: cur.b, To: nx}]; ok {
 						total.counts[ev]++
 						var msg string
-						ns, msg = t.step(s, ev)
+						ns.st, msg = t.step(s.st, ev)
 						if msg != "" && sum.bad == "" {
 							sum.bad, sum.badAt = msg, cur.b.Instrs[len(cur.b.Instrs)-1]
 						}
+					}
+					if errCall != nil && s.call == errCall {
+						ns.call, ns.kind = nil, 0 // consumed
 					}
 					p := ps{nx, ns}
 					if !seen[p] {
@@ -161,6 +215,57 @@ func (t *tsRule) run(anchor *ssa.Function, init uint8) *tsResult {
 	top := walk(anchor, nil, init, 0)
 	total.outs, total.bad, total.badAt = top.outs, top.bad, top.badAt
 	return total
+}
+
+func hasErrorResult(h *ssa.Function) bool {
+	rs := h.Signature.Results()
+	return rs.Len() > 0 && isErrorType(rs.At(rs.Len()-1).Type())
+}
+
+// errTestOf: the condition tests the error result of a call against nil: returns that call (as a value) and the
+// index of the successor taken when the error is non-nil.
+func errTestOf(cond ssa.Value) (ssa.Value, int) {
+	neg := false
+	for {
+		if u, ok := cond.(*ssa.UnOp); ok && u.Op == token.NOT {
+			cond = u.X
+			neg = !neg
+			continue
+		}
+		break
+	}
+	bo, ok := cond.(*ssa.BinOp)
+	if !ok || (bo.Op != token.EQL && bo.Op != token.NEQ) {
+		return nil, -1
+	}
+	x, y := bo.X, bo.Y
+	if c, isC := x.(*ssa.Const); isC && c.Value == nil {
+		x, y = y, x
+	}
+	if c, isC := y.(*ssa.Const); !isC || c.Value != nil {
+		return nil, -1
+	}
+	if !isErrorType(x.Type()) {
+		return nil, -1
+	}
+	var call ssa.Value
+	switch v := x.(type) {
+	case *ssa.Call:
+		call = v
+	case *ssa.Extract:
+		call = v.Tuple
+	}
+	if call == nil {
+		return nil, -1
+	}
+	nonNilOnTrue := bo.Op == token.NEQ
+	if neg {
+		nonNilOnTrue = !nonNilOnTrue
+	}
+	if nonNilOnTrue {
+		return call, 0
+	}
+	return call, 1
 }
 
 var _ = fmt.Sprintf
